@@ -184,11 +184,11 @@ TypeOf(x, C, P) ==
          THEN x.t ELSE ERR
     [] OTHER -> ERR
 
-(* functions: parameters are constants, the body fits the declared result                     *)
+(* functions: parameters are by-value locals (assignable), the body fits the declared result                     *)
 FunOk(f, G, P) ==
   LET C == [G |-> [n \in DOMAIN G \cup {f.ps[i] : i \in 1..Len(f.ps)} |->
                      IF \E i \in 1..Len(f.ps) : f.ps[i] = n
-                     THEN [t |-> f.pts[CHOOSE i \in 1..Len(f.ps) : f.ps[i] = n], asg |-> FALSE] ELSE G[n]],
+                     THEN [t |-> f.pts[CHOOSE i \in 1..Len(f.ps) : f.ps[i] = n], asg |-> TRUE] ELSE G[n]],
             ret |-> IF f.rt[1] \in {"gen", "fn"} THEN ERR ELSE f.rt, loop |-> FALSE, yl |-> ERR, cat |-> 0, pcat |-> 0]
   IN Len(f.ps) = Len(f.pts) /\ Fits(TypeOf(f.body, C, P), f.rt)
 
